@@ -12,7 +12,7 @@ RULE = (
     "1e-13..1e-7 degree neighbours, seam pairs, all vertices and centres of the level<=2 triangles, exact "
     "duplicates, 3 seeded generic points, destination points 1e-7..1 degree away in 3 bearings) x depth 0..20 "
     "(thorough ..24) x call form {python scalars, numpy scalars, 1-element array, middle slot of a 3-array, "
-    "strided view, byte-swapped array, list, float32-exact values}: range, parent/child, all forms equal, and "
+    "strided view, byte-swapped array, list, 2-d array, float32-exact values}: range, parent/child, all forms equal, and "
     "the position lies in the triangle the id names (own long-double subdivision).  "
     "intersect: centre (12) x depth x radius {.01,.5,3,20 x triangle width; 1e-4; 90 (shallow depths)}: "
     "inclusive and full lists against (A) a polar grid of 42 radii x 48 bearings of probe positions out to 1.6 r "
@@ -356,6 +356,9 @@ def as_form(a, form):
         return big[1::3]
     if form == "list":
         return a.tolist()
+    if form == "2d":
+        # same elements as a 2-d array (the entry points return 1-d results for arr.size elements)
+        return a.reshape(2, -1).copy() if (a.ndim == 1 and a.size % 2 == 0 and a.size >= 2) else a.reshape(1, -1).copy()
     raise ValueError(form)
 
 
@@ -443,7 +446,7 @@ def main(ctx):
 
     # ================================================================== ids
     DMAX = ctx.pick(20, 24)
-    FORMS = ["pyfloat", "npscalar", "array1", "array3", "strided", "swapped", "list"]
+    FORMS = ["pyfloat", "npscalar", "array1", "array3", "strided", "swapped", "list", "2d"]
 
     def lookup_form(h, ra, dec, form):
         if form == "pyfloat":
@@ -454,6 +457,12 @@ def main(ctx):
             r = h.lookup_id(np.array([ra]), np.array([dec]))
         elif form == "list":
             r = h.lookup_id([ra], [dec])
+        elif form == "2d":
+            # a 2-d array means its flattened elements (the result is 1-d with arr.size entries)
+            r = h.lookup_id(np.array([[10.0, ra], [200.0, 33.0]]), np.array([[20.0, dec], [-30.0, 44.0]]))
+            if r.shape != (4,):
+                return "shape %r" % (r.shape,)
+            r = r[1:2]
         else:
             a = np.array([10.0, ra, 200.0])
             d = np.array([20.0, dec, -30.0])
@@ -888,7 +897,7 @@ def main(ctx):
             for sc in SCALES:
                 if not on_lattice(bins, sc, depth):
                     continue
-                for form in ("swapped", "strided", "list"):
+                for form in ("swapped", "strided", "list", "2d"):
                     for (s1, s2) in (("base", "all"), ("anchor", "edges")):
                         bunits.append((depth, bins, sc, s1, s2, form, seed))
                 for (s1, s2) in (("one", "all"), ("anchor", "edges")):
@@ -913,7 +922,7 @@ def main(ctx):
     ctx.lattice("bincount", bunits, one_bincount,
                 bounds=dict(bins=BINS, deep_bins=DEEPBINS, depths=sorted(set(u[0] for u in bunits)), scales=[str(s) for s in SCALES], set_pairs=ctx.pick(PAIRS_Q, PAIRS_T),
                             routes=["internal", "ids", "ids+rev", "ids+rev+minmax", "ids+numpy-rev+minmax",
-                                    "getbins=False"], forms=["native", "swapped", "strided", "list", "scalar1"]))
+                                    "getbins=False"], forms=["native", "swapped", "strided", "list", "2d", "scalar1"]))
 
     # ---- supplied ids / reverse indices in other dtypes, byte orders and strides
     def one_revform(case, rec):
